@@ -20,6 +20,15 @@ def scene(rnd, n_est, n_gt, fpv):
     gt = [mk(GT_LABELS if fpv else LABELS, 100 + i, 1.0) for i in range(n_gt)]
     if rnd.random() < 0.3 and est and gt:       # mixed frames: never paired
         rnd.choice(est + gt)["frame"] = "map"
+    # look-alikes: a second object with the same time, label and pose (value-equal under DynamicObject.__eq__) but another size or frame —
+    # the matcher works on positions in the lists, so which of the two is meant must never be decided by ==
+    for lst in (est, gt):
+        if lst and rnd.random() < 0.25:
+            src = rnd.choice(lst)
+            twin = dict(src, uuid=src["uuid"] + "twin", size=rnd.choice([s for s in [(1.0, 2.0, 1.0), (2.0, 4.5, 1.5), (0.6, 0.6, 1.7)] if s != tuple(src["size"])]))
+            if rnd.random() < 0.3:
+                twin["frame"] = "map" if src["frame"] == "base_link" else "base_link"
+            lst.insert(rnd.randint(0, len(lst)), twin)
     return est, gt
 
 
@@ -52,7 +61,7 @@ def check(case):
         est, gt, e0, g0, res, tf = run(case)
     except Exception as ex:
         return f"get_object_results raised {type(ex).__name__}: {ex}"
-    if est != e0 or gt != g0 or any(a is not b for a, b in zip(est + gt, e0 + g0)):
+    if PID == "C01" and (est != e0 or gt != g0 or any(a is not b for a, b in zip(est + gt, e0 + g0))):
         return "the caller's lists were modified"
     fpv = case["task"].startswith("fp_validation")
     ei = [next((i for i, o in enumerate(e0) if o is r.estimated_object), None) for r in res]
@@ -64,11 +73,15 @@ def check(case):
     pg = [j for j in gi if j is not None]
     if len(set(pg)) != len(pg):
         return f"a ground truth occurs in two results: {gi}"
-    if not fpv and sorted(ei) != list(range(len(e0))):
+    # completeness clauses belong to C01 only (C02 is about which pairs are formed)
+    if PID == "C01" and not fpv and sorted(ei) != list(range(len(e0))):
         return f"estimates {sorted(set(range(len(e0))) - set(ei))} appear in no result"
-    if fpv and None in gi:
+    if PID == "C01" and fpv and None in gi:
         return "FP-validation kept an unpaired estimate"
-    module, maximize = _get_matching_module(MatchingMode(case["mode"]))
+    # the oracle's own reading of the four modes (not the code's dispatch table, which is under test): IoU scores are better when larger
+    from perception_eval.evaluation.matching import object_matching as _om
+    module = {"Center Distance": _om.CenterDistanceMatching, "Plane Distance": _om.PlaneDistanceMatching, "IoU 2D": _om.IOU2dMatching, "IoU 3D": _om.IOU3dMatching}[case["mode"]]
+    maximize = case["mode"].startswith("IoU")
     better = (lambda a, b: a > b) if maximize else (lambda a, b: a < b)
 
     def radius(j):
